@@ -108,14 +108,15 @@ pub fn format_duration(d: &Duration) -> String {
             if n < 0 {
                 neg = true;
             }
-            n as u64
+            n.unsigned_abs()
         })
         .unwrap_or_else(|| {
             let s = d.num_seconds();
             if s < 0 {
                 neg = true;
             }
-            s as u64 * SECOND
+            // Not representable in nanoseconds: saturate like Go's time.Duration does.
+            s.unsigned_abs().saturating_mul(SECOND)
         });
 
     if u < SECOND {
